@@ -231,6 +231,23 @@ def SOP.destroy (p : SOP) (c : Nat) : SOP :=
 
 def SOP.avail (p : SOP) : Nat := p.head.avail
 
+/-- `create(args…)` whose `T` constructor THROWS (round 3b), after `fix: static_object_pool::create
+returns the cell when the constructor throws`: `ptr = pool_alloc(&head); if (!ptr) return nullptr;`
+then a guard object whose destructor does `pool_free(&head, ptr)` unless the placement `new`
+completed.  `true` = the exception reaches the caller.  No object comes into existence. -/
+def SOP.createThrow (p : SOP) : Bool × SOP :=
+  let (ret, h) := p.head.alloc
+  match ret with
+  | none => (false, { p with head := h })
+  | some c => (true, { p with head := (h.release c).1 })
+
+/-- the routine as it was: nothing returns the cell -/
+def SOP.createThrowOrig (p : SOP) : Bool × SOP :=
+  let (ret, h) := p.head.alloc
+  match ret with
+  | none => (false, { p with head := h })
+  | some _ => (true, { p with head := h })
+
 /-! ## compat/mem/lin_malloc.cpp, lin_realloc.cpp
 
 `struct __freelist { size_t sz; struct __freelist *nx; }`.  A chunk is its
@@ -922,5 +939,36 @@ def stepCtx (lvl : Nat) (base : Nat) (cfg : Cfg) (h : Heap) (op : Op) : Option (
 /-- `void *cell(int i) { return (char *)_zone + _elemsz * i; }` (offset from the zone);
 `unlinked_iterator::operator*` = `cell(_num)` -/
 def IPool.cell (p : IPool) (i : Nat) : Nat := p.elemsz * i
+
+/-! ## a concrete byte memory (round 3b: moved here from the lemma files so that the DRIVER runs it)
+
+`Mem` is the specification vocabulary of the content theorems; `execJ` executes the stores of a
+request on it.  The harness fills every block it owns with `pat seed i`; after a `realloc` the
+driver executes the model's events on the old block's bytes and prints `prefixDigest` of the first
+`min(old, new)` bytes of the RETURNED block, the harness prints the same digest of the real bytes. -/
+
+/-- contents of the arena: byte offset ↦ value -/
+abbrev Mem := Nat → Nat
+
+/-- the stores executed on a concrete byte memory: `memcpy` copies byte by byte (source read
+before the call), an allocator store of a header word writes bytes `junk x` (whatever the
+word's bytes are: the theorems hold for every `junk`) -/
+def execJ (junk : Nat → Nat) : Mem → List Ev → Mem
+  | m, [] => m
+  | m, .w a n :: es => execJ junk (fun x => if a ≤ x ∧ x < a + n then junk x else m x) es
+  | m, .cp d s n :: es => execJ junk (fun x => if d ≤ x ∧ x < d + n then m (s + (x - d)) else m x) es
+
+/-- the harness' fill pattern: byte `i` of a block filled with seed `seed` -/
+def pat (seed i : Nat) : Nat := (seed * 0x9E37 + i * 131) % 251 + 1
+
+/-- a memory that holds the pattern `seed` in `[p, p + n)` and `other` everywhere else -/
+def patMem (p n seed other : Nat) : Mem := fun x => if p ≤ x ∧ x < p + n then pat seed (x - p) else other
+
+/-- digest of the `k` bytes `m (a + i) … ` (`i` counts up from the start value): `d ↦ (31 d + byte) mod 2³²` -/
+def digestFrom (m : Mem) (a : Nat) : Nat → Nat → Nat → Nat
+  | 0, _, acc => acc
+  | k + 1, i, acc => digestFrom m a k (i + 1) ((acc * 31 + m (a + i)) % 2 ^ 32)
+
+def prefixDigest (m : Mem) (a k : Nat) : Nat := digestFrom m a k 0 0
 
 end Igris.C10
